@@ -185,7 +185,7 @@ theorem foldlM_agree (fuel : Nat) (mode : GameMode) (points : List (PathControlP
     simp only [List.foldlM_cons]
     exact OAgree.bind (segBody_agree fuel mode points hbz vertices st st' i h) (fun a a' ha => ih a a' ha)
 
-/-- **purity for non-empty control-point lists**: the curve (or the panic / fuel outcome) does not depend on
+/-- **purity for non-empty control-point lists** (core lemma; see `compute_ignores_buffers` for the full statement): the curve (or the panic / fuel outcome) does not depend on
 what the buffers held before, for all well-formed buffers (the four Bezier scratch vectors have equal
 lengths — true of `CurveBuffers::default()`; only `extend_exact` resizes them, `BezierBuffers.extendExact_wf`).
 Covers every segment kind, **given** `BezierPure` (Lemmas/BezierPure.lean): the same statement for `approximate_bezier`
@@ -214,27 +214,92 @@ theorem compute_ignores_buffers_core (fuel : Nat) (mode : GameMode) (pts : List 
     simp only [Outcome.ok_bind, Outcome.pure_eq_ok, e1, e2]
     cases calculateLength s'.path L s'.optLen <;> rfl
 
-/-- **`compute_ignores_buffers_partial`** (unconditional): non-empty control points whose typed points are all
-linear or Catmull (segments starting at an untyped point are linear) — the curve does not depend on the buffers. -/
+/-- an empty control-point list: the path is cleared before the early return (F7 repaired, /repo c94e1fc), so the
+curve is the empty one whatever the buffers held. -/
+theorem compute_empty (fuel : Nat) (mode : GameMode) (L : Option F) (b : CurveBuffers P F) :
+    observe (Curve.new fuel mode ([] : List (PathControlPoint P)) L b) =
+      observe (Curve.new fuel mode ([] : List (PathControlPoint P)) L ({} : CurveBuffers P F)) := by
+  unfold observe Curve.new compute calculatePath
+  simp only [List.isEmpty_nil, if_true, Outcome.pure_eq_ok, Outcome.ok_bind]
+  cases calculateLength ([] : List (Pos P)) L (0 : F) <;> rfl
+
+/-- **`compute_ignores_buffers`, at the full strength of the property**: for every mode, control-point list
+(empty or not, every segment kind: linear, Catmull, perfect curves with their arc or Bezier fallback, Bezier,
+B-spline), requested length, fuel and arithmetic, the curve — or the panic / fuel outcome — that `Curve::new`
+produces does not depend on what the buffers held before, for all well-formed buffers (the four Bezier scratch
+vectors have equal lengths: true of `CurveBuffers::default()` and preserved by every computation,
+`new_preserves_wf`). Uses `bezierPure` (Lemmas/BezierPure.lean): every scratch cell that is read was written
+earlier in the same call. -/
+theorem compute_ignores_buffers (fuel : Nat) (mode : GameMode) (pts : List (PathControlPoint P))
+    (L : Option F) (b₁ b₂ : CurveBuffers P F) (h₁ : b₁.bezier.WF) (h₂ : b₂.bezier.WF) :
+    observe (Curve.new fuel mode pts L b₁) = observe (Curve.new fuel mode pts L b₂) := by
+  cases pts with
+  | nil => rw [compute_empty fuel mode L b₁, compute_empty fuel mode L b₂]
+  | cons p t =>
+    exact compute_ignores_buffers_core fuel mode (p :: t) (Or.inr (bezierPure fuel)) L b₁ b₂ (by simp) h₁ h₂
+
+/-- in particular every computation equals the one on fresh buffers. -/
+theorem compute_eq_fresh (fuel : Nat) (mode : GameMode) (pts : List (PathControlPoint P))
+    (L : Option F) (b : CurveBuffers P F) (h : b.bezier.WF) :
+    observe (Curve.new fuel mode pts L b) = observe (Curve.new fuel mode pts L ({} : CurveBuffers P F)) :=
+  compute_ignores_buffers fuel mode pts L b {} h ⟨rfl, rfl, rfl⟩
+
+/-- the statement of the property as a proposition. -/
+def compute_ignores_buffers_statement (P F : Type) [Scalar P] [Scalar F] [Cvt P F] [Trig F] [Trig P] : Prop :=
+  ∀ (fuel : Nat) (mode : GameMode) (pts : List (PathControlPoint P)) (L : Option F)
+    (b₁ b₂ : CurveBuffers P F), b₁.bezier.WF → b₂.bezier.WF →
+    observe (Curve.new fuel mode pts L b₁) = observe (Curve.new fuel mode pts L b₂)
+
+theorem compute_ignores_buffers_statement_holds : compute_ignores_buffers_statement P F :=
+  fun fuel mode pts L b₁ b₂ h₁ h₂ => compute_ignores_buffers fuel mode pts L b₁ b₂ h₁ h₂
+
+/-- the computation leaves the buffers well-formed, so the hypothesis holds along every history that starts
+from `CurveBuffers::default()`. -/
+theorem new_preserves_wf (fuel : Nat) (mode : GameMode) (pts : List (PathControlPoint P)) (L : Option F)
+    (b b' : CurveBuffers P F) (c : Curve P F) (hw : b.bezier.WF)
+    (h : Curve.new fuel mode pts L b = .ok (c, b') ∨ Curve.newBorrowed fuel mode pts L b = .ok (c, b')) :
+    b'.bezier.WF := by
+  have hcomp : ∃ b1, compute fuel mode pts L b = .ok b1 ∧ b'.bezier = b1.bezier := by
+    rcases h with h | h
+    · unfold Curve.new at h
+      cases hc : compute fuel mode pts L b with
+      | error e => rw [hc] at h; cases h
+      | ok b1 => rw [hc] at h; simp only [Outcome.ok_bind, Outcome.pure_eq_ok] at h; cases h; exact ⟨_, rfl, rfl⟩
+    · unfold Curve.newBorrowed at h
+      cases hc : compute fuel mode pts L b with
+      | error e => rw [hc] at h; cases h
+      | ok b1 => rw [hc] at h; simp only [Outcome.ok_bind, Outcome.pure_eq_ok] at h; cases h; exact ⟨_, rfl, rfl⟩
+  obtain ⟨b1, hc, hb⟩ := hcomp
+  rw [hb]
+  unfold compute calculatePath at hc
+  cases hp : pts.isEmpty with
+  | true =>
+    simp only [hp, if_true, Outcome.pure_eq_ok, Outcome.ok_bind] at hc
+    cases hl : calculateLength ([] : List (Pos P)) L (0 : F) with
+    | error e => rw [hl] at hc; cases hc
+    | ok r => rw [hl] at hc; simp only [Outcome.ok_bind, Outcome.pure_eq_ok] at hc; cases hc; exact hw
+  | false =>
+    simp only [hp, Bool.false_eq_true, if_false] at hc
+    have key := foldlM_agree fuel mode pts (Or.inr (bezierPure fuel)) (pts.map (·.pos)) (List.range pts.length)
+      { path := [], optLen := (0 : F), bezier := b.bezier, start := 0 }
+      { path := [], optLen := (0 : F), bezier := b.bezier, start := 0 } ⟨rfl, rfl, rfl, hw, hw⟩
+    cases hf : (List.range pts.length).foldlM (segBody fuel mode pts (pts.map (·.pos)))
+        { path := [], optLen := (0 : F), bezier := b.bezier, start := 0 } with
+    | error e => rw [hf] at hc; cases hc
+    | ok st =>
+      rw [hf] at hc key
+      simp only [OAgree] at key
+      simp only [Outcome.ok_bind, Outcome.pure_eq_ok] at hc
+      cases hl : calculateLength st.path L st.optLen with
+      | error e => rw [hl] at hc; cases hc
+      | ok r => rw [hl] at hc; simp only [Outcome.ok_bind, Outcome.pure_eq_ok] at hc; cases hc; exact key.2.2.2.1
+
+/-- weaker corollaries kept for reference: Bezier-free control points need no appeal to `bezierPure`. -/
 theorem compute_ignores_buffers_partial (fuel : Nat) (mode : GameMode) (pts : List (PathControlPoint P))
     (hfree : BezierFree pts) (L : Option F) (b₁ b₂ : CurveBuffers P F) (hne : pts ≠ [])
     (h₁ : b₁.bezier.WF) (h₂ : b₂.bezier.WF) :
     observe (Curve.new fuel mode pts L b₁) = observe (Curve.new fuel mode pts L b₂) :=
   compute_ignores_buffers_core fuel mode pts (Or.inl hfree) L b₁ b₂ hne h₁ h₂
-
-/-- the same for **every** segment kind (Bezier, B-spline, perfect curves with their Bezier fallback), given
-`BezierPure`: `approximate_bezier` alone does not depend on the contents of its scratch vectors (not proved). -/
-theorem compute_ignores_buffers_modulo_bezier (fuel : Nat) (hbz : BezierPure P fuel) (mode : GameMode)
-    (pts : List (PathControlPoint P)) (L : Option F) (b₁ b₂ : CurveBuffers P F) (hne : pts ≠ [])
-    (h₁ : b₁.bezier.WF) (h₂ : b₂.bezier.WF) :
-    observe (Curve.new fuel mode pts L b₁) = observe (Curve.new fuel mode pts L b₂) :=
-  compute_ignores_buffers_core fuel mode pts (Or.inr hbz) L b₁ b₂ hne h₁ h₂
-
-/-- the full statement of the property: also for an empty control-point list. -/
-def compute_ignores_buffers_statement (P F : Type) [Scalar P] [Scalar F] [Cvt P F] [Trig F] [Trig P] : Prop :=
-  ∀ (fuel : Nat) (mode : GameMode) (pts : List (PathControlPoint P)) (L : Option F)
-    (b₁ b₂ : CurveBuffers P F), b₁.bezier.WF → b₂.bezier.WF →
-    observe (Curve.new fuel mode pts L b₁) = observe (Curve.new fuel mode pts L b₂)
 
 section F7
 open Rosu.Toy
@@ -248,20 +313,12 @@ theorem staleBufs_from_borrowed :
       .ok ({ path := [pt 0 0, pt 3 4], lengths := [0, 25] }, staleBufs) := by
   rfl
 
-/-- **F7**: on buffers that hold a previous (borrowed) path, an empty control-point list yields that stale
-path, whereas fresh buffers yield the empty curve. -/
-theorem f7_witness :
-    observe (Curve.new 10 .osu ([] : List (PathControlPoint Int)) (none : Option Int) staleBufs) =
-      .ok ([pt 0 0, pt 3 4], [0, 25]) ∧
+/-- the former **F7** witness (repaired in /repo c94e1fc): on buffers that hold a previous (borrowed) path, an
+empty control-point list now yields the empty curve `([], [0.0])`, exactly as on fresh buffers. -/
+example :
+    observe (Curve.new 10 .osu ([] : List (PathControlPoint Int)) (none : Option Int) staleBufs) = .ok ([], [0]) ∧
     observe (Curve.new 10 .osu ([] : List (PathControlPoint Int)) (none : Option Int) {}) = .ok ([], [0]) := by
   constructor <;> rfl
-
-/-- the full statement is **false** of the code (F7). -/
-theorem compute_ignores_buffers_statement_false : ¬ compute_ignores_buffers_statement Int Int := by
-  intro h
-  have := h 10 .osu [] none staleBufs {} ⟨rfl, rfl, rfl⟩ ⟨rfl, rfl, rfl⟩
-  rw [f7_witness.1, f7_witness.2] at this
-  cases this
 
 end F7
 
